@@ -39,7 +39,7 @@ class C10(Prop):
                "aioswitcher.schedule.parser:ScheduleParser.get_start_time", "aioswitcher.api:SwitcherType1Api.get_schedules",
                "aioswitcher.api:SwitcherType1Api.create_schedule", "aioswitcher.api.messages:SwitcherGetSchedulesResponse.__post_init__"]
     min_evaluations = {"quick": 20_000, "thorough": 200_000}
-    budget_s = {"quick": 60, "thorough": 900}
+    budget_s = {"quick": 300, "thorough": 900}
 
     def selftest(self):
         reply_captures()
